@@ -6,4 +6,7 @@ EXTENDS Revocation, Json
 Emit == (Hist /\ lastV # NoV) => PrintT(ToJson(hist))
 \* split Entry transaction: one witness per distinct final allocation
 EmitAlloc == (Hist /\ Procs # {} /\ nIssued = MaxCreds /\ Quiet) => PrintT(ToJson(hist))
+\* symmetry of the check configs whose Issuers / Nodes are model values
+Sym == Permutations(Issuers) \cup Permutations(Nodes)
+SymNodes == Permutations(Nodes)
 =============================================================================
